@@ -16,6 +16,21 @@ def healthy(ctx, n, nsteps):
                 out += [{"op": "validate"}, {"op": "validate", "skip": True}]
                 om += [{"kind": "vcheck"}, {"kind": "vcheck"}]
         cases.append({"id": f"v{t}", "steps": out, "marks": om})
+    # a backup killed at EVERY early point (before, at and after its band head) on top of a healthy archive: the state is
+    # healthy up to a file-less newest band directory (HealthyP.backup_uh); validate must not crash, and must report the
+    # head-less band if there is one
+    t0 = scen.small_tree(ctx.rng)
+    t1, _ = gen.mutate_tree(ctx.rng, t0)
+    for k in range(2, 14):
+        steps = [{"op": "init"}, {"op": "mktree", "path": "src", "tree": t0}, {"op": "snap", "path": "src"}, {"op": "walk"},
+                 {"op": "backup", "opts": {"meph": 2, "mbs": 8, "sfc": 4}}, {"op": "arch"},
+                 {"op": "mktree", "path": "src", "tree": t1}, {"op": "snap", "path": "src"}, {"op": "walk"},
+                 {"op": "backup", "opts": {"meph": 2, "mbs": 8, "sfc": 4}, "plan": {"crash": k}}, {"op": "arch"}, {"op": "validate"}]
+        marks = [{"kind": "init"}, {"kind": "mktree", "tree": t0}, {"kind": "snap"}, {"kind": "walk"},
+                 {"kind": "backup", "plan": None, "tree": t0, "snap_at": 2}, {"kind": "arch"},
+                 {"kind": "mktree", "tree": t1}, {"kind": "snap"}, {"kind": "walk"},
+                 {"kind": "backup", "plan": {"crash": k}, "tree": t1, "snap_at": 7}, {"kind": "arch"}, {"kind": "validate"}]
+        cases.append({"id": f"u{k}", "steps": steps, "marks": marks, "uh": True})
     res = ctx.cvh_run(cases)
     hs = []
     for c in cases:
@@ -39,7 +54,18 @@ def healthy(ctx, n, nsteps):
         names = l4.Names()
         scen.collect_names(names, c["steps"], r)
         h = l4.History(c["id"], names)
-        h.expect_healthy = True     # kills only from operation 9 on: after the band head is written
+        if c.get("uh"):
+            h.expect_uh = True
+            a = r[10]["arch"]
+            headless = [d for d in a["dirs"] if scen.BAND_RE.match(d) and d + "/BANDHEAD" not in a["files"]]
+            v = r[11]
+            if v.get("panic") or (headless and not (v.get("monitor_errors") or v.get("result") != "ok")):
+                ctx.oracle_fail("validate/headless-band-unreported", f"after a backup killed at operation {c['steps'][9]['plan']['crash']} validate "
+                                f"{'crashed' if v.get('panic') else 'did not report the band directory without a head'}", {"steps": c["steps"]})
+                continue
+            ctx.dist("killed_early_headless" if headless else "killed_early_with_head")
+        else:
+            h.expect_healthy = True     # kills only from operation 9 on: after the band head is written
         scen.add_model_history(h, c["steps"], c["marks"], r, names)
         hs.append(h)
     out = l4.evaluate(ctx, "C09h", hs, shards=8)
